@@ -29,6 +29,54 @@ _tealer_loaded = False
 OUT_DIR = None
 
 
+def dot_malformed(text):
+    """None if `text` has the outer shape of a DOT digraph (header, balanced braces outside quoted strings and HTML-like
+    labels, nothing after the closing brace), else a short description."""
+    t = text.strip()
+    if not (t.startswith("digraph") or t.startswith("strict digraph")):
+        return "does not start with `digraph`"
+    depth = 0       # braces
+    angle = 0       # inside <...> of an HTML-like label
+    quote = False
+    closed_at = None
+    i = 0
+    while i < len(t):
+        c = t[i]
+        if quote:
+            if c == "\\":
+                i += 2
+                continue
+            if c == '"':
+                quote = False
+        elif angle:
+            if c == "<":
+                angle += 1
+            elif c == ">":
+                angle -= 1
+        elif c == '"':
+            quote = True
+        elif c == "<":
+            angle = 1
+        elif c == "{":
+            if closed_at is not None:
+                return "text after the closing brace"
+            depth += 1
+        elif c == "}":
+            depth -= 1
+            if depth < 0:
+                return "unbalanced closing brace"
+            if depth == 0:
+                closed_at = i
+        elif closed_at is not None and not c.isspace():
+            return "text after the closing brace"
+        i += 1
+    if quote or angle:
+        return "unterminated string or HTML label"
+    if closed_at is None or depth != 0:
+        return "missing closing brace"
+    return None
+
+
 def release_tealer_caches():
     """tealer memoises per-block stack ASTs in unbounded lru_caches keyed by block objects, which keeps every contract a
     worker has analysed alive (1-2 GB per worker in the thorough tiers).  Called BETWEEN cases only - never between a
